@@ -325,6 +325,7 @@ def subtree_box(prog: Program) -> RuleResult:
         return key in nonneg_names
 
     ctx = Ctx(is_nonneg)
+    opaque: set = set()
 
     def ev(expr: ast.AST, env: dict):
         if isinstance(expr, ast.Constant) and isinstance(expr.value, (int, float)) and not isinstance(expr.value, bool):
@@ -363,6 +364,8 @@ def subtree_box(prog: Program) -> RuleResult:
                 pos = ev(expr.args[0] if expr.args else next(k.value for k in expr.keywords if k.arg == "position"), env)
                 size = ev(expr.args[1] if len(expr.args) > 1 else next(k.value for k in expr.keywords if k.arg == "size"), env)
                 return ("rect", pos, size)
+            # a call the lemma does not interpret: a quantity of unknown sign and value, never a free unknown
+            opaque.add(canon(ast.unparse(expr)))
             return Poly.atom(canon(ast.unparse(expr)))
         if isinstance(expr, ast.Attribute):
             if expr.attr in ("x", "y", "w", "h"):
@@ -372,6 +375,18 @@ def subtree_box(prog: Program) -> RuleResult:
             return Poly.atom(canon(ast.unparse(expr)))
         if isinstance(expr, ast.Subscript):
             base = expr.value
+            if (
+                isinstance(base, ast.Call) and dotted(base.func) == "sorted" and len(base.args) == 1 and not base.keywords
+                and isinstance(base.args[0], (ast.Tuple, ast.List)) and base.args[0].elts
+                and isinstance(expr.slice, (ast.Constant, ast.UnaryOp))
+            ):
+                idx = ast.literal_eval(expr.slice) if not isinstance(expr.slice, ast.Constant) or isinstance(expr.slice.value, int) else None
+                if idx in (0, -1):
+                    args = [ev(a, env) for a in base.args[0].elts]
+                    if all(isinstance(a, Poly) for a in args):
+                        return ctx.extremum("min" if idx == 0 else "max", args)
+            if any(isinstance(x, ast.Call) for x in ast.walk(expr)):
+                opaque.add(canon(ast.unparse(expr)))
             if isinstance(base, ast.Name) and base.id in info_vars and isinstance(expr.slice, ast.Constant) and expr.slice.value == size_key:
                 k = info_vars[base.id]
                 return ("vec", Poly.atom(f"child{k}['size'].w"), Poly.atom(f"child{k}['size'].h"))
@@ -476,6 +491,9 @@ def subtree_box(prog: Program) -> RuleResult:
         if any(ctx.prove_nonneg(p) for p in alternatives):
             res.ok(construct, "proved for all non-negative sizes and spacings")
             return
+        blocked = sorted({a for p in alternatives for a in ctx.free_atoms(p) if a in opaque})
+        if blocked:
+            raise AnalysisError(f"{construct}: `{alternatives[0]} >= 0` is not proved and contains `{blocked[0]}`, a call the lemma does not interpret - no counter-example can be built from it")
         witnesses = [ctx.refute_nonneg(p) for p in alternatives]
         if all(w is not None for w in witnesses):
             w = witnesses[0]
